@@ -394,8 +394,8 @@ def unit_wrappers(S):
     # the wrapped object is any environment-LIKE object (possibly a wrapper stack): its `unwrapped` is a different environment with other bounds of the same shape, so a wrapper
     # that declares or clips to `env.unwrapped`'s space where `env`'s is meant is visible
     from lvc.generic import GenericInnerEnv
-    inner0 = GenericInnerEnv(Box(-jnp.ones((2,)), jnp.ones((2,))), observation_space=Box(jnp.array([-2.0, 0.0]), jnp.array([2.0, 5.0])))
-    object.__setattr__(inner0, "decoy", GenericEnv(Box(-3 * jnp.ones((2,)), 3 * jnp.ones((2,))), tag="decoy", observation_space=Box(jnp.array([-0.5, 1.0]), jnp.array([0.5, 2.0]))))
+    inner0 = GenericInnerEnv(Box(-jnp.ones((2,)), jnp.ones((2,))), observation_space=Box(jnp.array([-2.0, 0.0]), jnp.array([2.0, 5.0])),
+                             decoy=GenericEnv(Box(-3 * jnp.ones((2,)), 3 * jnp.ones((2,))), tag="decoy", observation_space=Box(jnp.array([-0.5, 1.0]), jnp.array([0.5, 2.0]))))
     inner = sym(ctx, "env", inner0)
     o = sym(ctx, "o", sd((2,), f32))
 
